@@ -183,12 +183,13 @@ class AnnGen:
 # --------------------------------------------------------------------------- names
 
 FUNCS = ["f", "g", "compute", "my_func", "get_value_x", "doIt", "to_text", "helper1", "run_all", "transform",
-         "load_data", "save_it", "fit", "predict_one", "score", "plot_xy", "resize", "merge_all", "split_by", "norm"]
+         "load_data", "save_it", "fit", "predict_one", "score", "plot_xy", "resize", "merge_all", "split_by", "norm",
+         "print_", "filter_", "_hidden_both_"]
 CLASSES = ["A", "B", "Shape", "Node", "my_class", "HTTPServer", "Data_Set", "Tree", "Base", "Impl", "Widget",
-           "Model", "Layer", "Table", "Row", "Col_Spec", "Reader", "Writer", "Graph", "Edge"]
+           "Model", "Layer", "Table", "Row", "Col_Spec", "Reader", "Writer", "Graph", "Edge", "Type_", "object_"]
 PARAMS = ["x", "y", "value", "max_depth", "n_jobs", "alpha", "data_set", "flag", "name", "count", "opt_z"]
 ATTRS = ["a", "b", "count", "my_attr", "value_2", "data", "size"]
-MODULES = ["mod_a", "mod_b", "core", "utils", "shapes", "io_tools"]
+MODULES = ["mod_a", "mod_b", "core", "utils", "shapes", "io_tools", "lambda_", "class_", "models", "plots", "helpers"]
 SUBPKGS = ["subpkg", "inner_pkg", "tools"]
 
 
@@ -384,7 +385,7 @@ class PkgGen:
         r = self.r
         lits = [("1", "int"), ("2.5", "float"), ('"s"', "str"), ("True", "bool"), ("None", "None")]
         rets = []
-        shape = r.choice(["single", "if", "try", "loop", "tuple", "cond", "with", "match"])
+        shape = r.choice(["single", "if", "try", "loop", "tuple", "cond", "cond", "with", "match"])
         pick = lambda: r.choice(lits)
         if shape == "single":
             rets = [[pick()]]
@@ -412,8 +413,19 @@ class PkgGen:
             body = ["match len(str(0)):", "    case 1:", f"        return {a[0]}", "    case _:", f"        return {b[0]}"]
         elif shape == "cond":
             a, b = pick(), pick()
-            rets = [[a], [b]]
-            body = [f"return {a[0]} if len(str(0)) > 1 else {b[0]}"]
+            k = r.randrange(4)
+            if k == 0:
+                rets = [[a], [b]]
+                body = [f"return {a[0]} if len(str(0)) > 1 else {b[0]}"]
+            elif k == 1:          # a call in the if-branch is not inferable; the else-branch still is
+                rets = [[b]]
+                body = [f"return len(str(0)) if len(str(0)) > 1 else {b[0]}"]
+            elif k == 2:          # attribute access in the if-branch
+                rets = [[b]]
+                body = [f"return str.__name__ if len(str(0)) > 1 else {b[0]}"]
+            else:                 # call in the else-branch
+                rets = [[a]]
+                body = [f"return {a[0]} if len(str(0)) > 1 else len(str(0))"]
         else:
             a, b, c = pick(), pick(), pick()
             rets = [[a, b], [c]]
